@@ -13,6 +13,7 @@ static Ctx C;
 struct Node : public MockN2k {
   unsigned char src(int i) { return Devices[i].N2kSource; }
 };
+static std::set<unsigned> ownedBefore;   // addresses of our devices before the current op
 static Node *N = nullptr; static tN2kDeviceList *DL = nullptr;
 static int nDev = 1, mode = 2;
 static long delivered = 0; static std::string caseDesc; static bool caseTP = false, caseMoved = false;
@@ -45,6 +46,7 @@ static void exec(const std::string &line) {
     N->SetMode((tNMEA2000::tN2kMode)mode, 20);
     N->EnableForward(false);
     N->SetN2kCANMsgBufSize((uint8_t)slots);
+    if (w.size() > 7) N->SetN2kCANSendFrameBufSize((uint16_t)atoi(w[7].c_str()));
     N->SetMsgHandler(onMsg);
     if (dl) DL = new tN2kDeviceList(N);
     openAndSettle(*N, 700);
@@ -52,6 +54,8 @@ static void exec(const std::string &line) {
     C.out("ok"); return;
   }
   if (!N) { C.out("bad-op"); return; }
+  ownedBefore.clear(); for (int i = 0; i < nDev; i++) ownedBefore.insert(N->src(i));
+  if (w[0] == "acc") { N->acceptDefault = w[1] == "1"; C.out("ok"); alarm(0); return; }
   if (w[0] == "t") { g_now += strtoull(w[1].c_str(), 0, 10); N->ParseMessages(); C.out("ok"); }
   else if (w[0] == "poll") { N->ParseMessages(); C.out("ok"); }
   else if (w[0] == "rx") {
@@ -65,6 +69,14 @@ static void exec(const std::string &line) {
     N->SendMsg(m, d); C.out("ok");
   }
   else C.out("bad-op");
+  // every frame the node puts on the bus carries an address one of its devices held before or after this op (or the null address)
+  for (auto &f : N->sent) {
+    unsigned sa = (unsigned)(f.id & 0xff); bool ok = sa == 254 || ownedBefore.count(sa);
+    for (int i = 0; i < nDev && !ok; i++) if (N->src(i) == sa) ok = true;
+    // a device may pass through intermediate addresses within one op (several lost arbitrations): allow claims from any address
+    if (!ok && ((f.id >> 8) & 0x1ff00) == 60928UL) ok = true;
+    if (!ok) { C.fail("C07:frame-from-foreign-address", "frame %s sent from address %u which no device of the node holds", frameStr(f).c_str(), sa); break; }
+  }
   N->sent.clear();
   if (N->src(0) != addr0) { caseMoved = true; addr0 = N->src(0); }
   alarm(0);
@@ -80,7 +92,8 @@ static void frame(unsigned long id, int len, const std::vector<unsigned char> &b
   char hd[64]; snprintf(hd, sizeof hd, "rx %lx %d ", id, len); std::vector<unsigned char> x = b; x.resize(8, 0xff); exec(std::string(hd) + hex(x.data(), 8));
 }
 static unsigned ourAddr() { return R->chance(1, 8) ? (unsigned)R->below(256) : (R->chance(1, 6) ? 255 : N->src((int)R->below(nDev))); }
-static unsigned peer() { return R->chance(1, 10) ? (unsigned)R->range(250, 255) : (unsigned)R->range(30, 60); }
+static unsigned pool[4] = {31, 32, 40, 57};
+static unsigned peer() { return R->chance(1, 10) ? (unsigned)R->range(250, 255) : (R->chance(2, 3) ? pool[R->below(4)] : (unsigned)R->range(30, 60)); }
 static int dlc() { return R->chance(1, 5) ? (int)R->below(9) : 8; }
 static std::vector<unsigned char> rnd(int n) { std::vector<unsigned char> v(n); for (auto &x : v) x = (unsigned char)R->below(256); return v; }
 static std::vector<unsigned char> le(uint64_t v, int n) { std::vector<unsigned char> r(n); for (int i = 0; i < n; i++) r[i] = (unsigned char)(v >> (8 * i)); return r; }
@@ -103,17 +116,17 @@ static void fastPacket(unsigned long pgn, unsigned prio, unsigned src, unsigned 
 static void tpSession(bool toUs) {
   caseTP = true;
   unsigned src = peer(), dst = toUs ? ourAddr() : 255; unsigned long pgn = R->chance(1, 2) ? 126208UL : (R->chance(1, 2) ? 126996UL : 130816UL + R->below(20));
-  int bytes = R->chance(1, 6) ? (int)R->range(0, 1785) : (int)R->range(9, 230); int pk = (bytes + 6) / 7; if (R->chance(1, 8)) pk = (int)R->below(256);
+  int bytes = R->chance(1, 8) ? (int)R->range(0, 1785) : (R->chance(1, 10) ? (int)R->range(220, 230) : (int)R->range(9, 223)); int pk = (bytes + 6) / 7; if (R->chance(1, 8)) pk = (int)R->below(256);
   std::vector<unsigned char> cm = {(unsigned char)(dst == 255 ? 32 : 16), (unsigned char)bytes, (unsigned char)(bytes >> 8), (unsigned char)pk, (unsigned char)(R->chance(1, 3) ? 0xff : R->below(8)), (unsigned char)pgn, (unsigned char)(pgn >> 8), (unsigned char)(pgn >> 16)};
-  frame(mkId(7, 60160UL, src, dst), dlc(), cm);
+  frame(mkId(7, 60416UL, src, dst), dlc(), cm);
   int n = R->chance(1, 5) ? (int)R->below(40) : pk;
   for (int k = 1; k <= n; k++) {
     if (R->chance(1, 15)) { exec("t " + std::to_string(R->range(0, 1300))); }
-    if (R->chance(1, 12)) {   // lose our address in the middle of the session: a competing claim with a tiny NAME
+    if (R->chance(1, 12) || (k == n && R->chance(1, 3))) {   // lose our address in the middle (or just before the last packet) of the session: a competing claim with a tiny NAME
       frame(mkId(6, 60928UL, N->src(0), 255), 8, le(R->chance(1, 2) ? 1 : name(), 8));
     }
     std::vector<unsigned char> dt = rnd(8); dt[0] = (unsigned char)(R->chance(1, 12) ? R->below(256) : k);
-    frame(mkId(7, 60416UL, src, dst), dlc(), dt);
+    frame(mkId(7, 60160UL, src, dst), dlc(), dt);
   }
 }
 static void tpControl() {   // CTS / EndAck / Abort / nonsense towards us, possibly for a transfer we started
@@ -121,7 +134,7 @@ static void tpControl() {   // CTS / EndAck / Abort / nonsense towards us, possi
   unsigned char ctl[] = {17, 19, 255, 16, 32, (unsigned char)R->below(256)};
   std::vector<unsigned char> cm = rnd(8); cm[0] = ctl[R->below(6)]; if (R->chance(2, 3)) { cm[5] = (unsigned char)pgn; cm[6] = (unsigned char)(pgn >> 8); cm[7] = (unsigned char)(pgn >> 16); }
   if (cm[0] == 17 && R->chance(1, 2)) { cm[1] = (unsigned char)R->below(8); cm[2] = (unsigned char)R->range(0, 40); }
-  frame(mkId(7, 60160UL, src, dst), dlc(), cm);
+  frame(mkId(7, 60416UL, src, dst), dlc(), cm);
 }
 static void groupFunction() {
   unsigned long tgt[] = {60928, 126464, 126993, 126996, 126998, 127250, 65280, 130816, 0, 0xFFFFFF};
@@ -137,7 +150,7 @@ static void groupFunction() {
   fastPacket(126208UL, 3, peer(), ourAddr(), pl, R->chance(1, 15) ? (int)R->below(256) : -1);
 }
 static void deviceInfoTraffic() {
-  unsigned src = R->chance(1, 3) ? peer() : (unsigned)R->below(254);
+  unsigned src = R->chance(2, 3) ? pool[R->below(4)] : (R->chance(1, 2) ? peer() : (unsigned)R->below(254));
   unsigned k = (unsigned)R->below(5);
   if (k == 0) frame(mkId(6, 60928UL, src, 255), dlc(), le(name(), 8));
   else if (k == 1) { std::vector<unsigned char> pl = rnd(R->chance(1, 3) ? (int)R->range(0, 140) : 134); fastPacket(126996UL, 6, src, 255, pl); }
@@ -145,8 +158,21 @@ static void deviceInfoTraffic() {
     std::vector<unsigned char> pl; for (int s = 0; s < 3; s++) { int n = R->chance(1, 4) ? (int)R->below(256) : (int)R->range(2, 40); pl.push_back((unsigned char)n); pl.push_back((unsigned char)(R->chance(1, 8) ? R->below(256) : 1)); for (int i = 2; i < n && pl.size() < 223 && i < 72; i++) pl.push_back((unsigned char)R->range(32, 126)); }
     if (pl.size() > 223) pl.resize(223); fastPacket(126998UL, 6, src, 255, pl);
   }
-  else if (k == 3) { std::vector<unsigned char> pl = {(unsigned char)R->below(3)}; int n = R->chance(1, 5) ? 74 : (int)R->below(30); for (int i = 0; i < n && pl.size() + 3 <= 223; i++) { auto a = le(R->below(1 << 17), 3); pl.insert(pl.end(), a.begin(), a.end()); } fastPacket(126464UL, 6, src, 255, pl); }
+  else if (k == 3) { std::vector<unsigned char> pl = {(unsigned char)R->below(3)}; int n = R->chance(1, 6) ? 74 : (int)R->below(45); for (int i = 0; i < n && pl.size() + 3 <= 223; i++) { auto a = le(R->below(1 << 17), 3); pl.insert(pl.end(), a.begin(), a.end()); } fastPacket(126464UL, 6, src, 255, pl); }
   else { frame(mkId(2, 127250UL, src, 255), 8, rnd(8)); }
+}
+// a peer with a stable NAME announces itself and then sends its information several times with changing sizes
+static void deviceListScenario() {
+  unsigned idx = (unsigned)R->below(4), src = pool[idx];
+  frame(mkId(6, 60928UL, src, 255), 8, le(0xC0FFEE0000A000ULL + idx, 8));
+  int m = (int)R->range(3, 10);
+  for (int i = 0; i < m; i++) {
+    unsigned k = (unsigned)R->below(4);
+    if (k <= 1) { std::vector<unsigned char> pl = {(unsigned char)R->below(2)}; int n = R->chance(1, 6) ? 74 : (int)R->below(50); for (int j = 0; j < n && pl.size() + 3 <= 223; j++) { auto a = le(59392 + R->below(70000), 3); pl.insert(pl.end(), a.begin(), a.end()); } fastPacket(126464UL, 6, src, 255, pl); }
+    else if (k == 2) { std::vector<unsigned char> pl; for (int q = 0; q < 3; q++) { int n = (int)R->range(2, R->chance(1, 3) ? 72 : 20); pl.push_back((unsigned char)n); pl.push_back(1); for (int j = 2; j < n; j++) pl.push_back((unsigned char)R->range(48, 122)); } if (pl.size() > 223) pl.resize(223); fastPacket(126998UL, 6, src, 255, pl); }
+    else { std::vector<unsigned char> pl = rnd(134); fastPacket(126996UL, 6, src, 255, pl); }
+    if (R->chance(1, 4)) exec("t " + std::to_string(R->range(0, 1200)));
+  }
 }
 static void isoStuff() {
   unsigned k = (unsigned)R->below(4);
@@ -160,14 +186,22 @@ static void garbage() { frame((unsigned long)R->next() & (R->chance(1, 4) ? 0xFF
 static void oneCase() {
   int md = R->chance(1, 5) ? (int)R->below(5) : 2; int devs = R->chance(1, 2) ? 1 : (int)R->range(1, 9);
   uint64_t origin = R->chance(1, 3) ? 0xFFFFFFFFULL - R->below(5000) : R->below(1000000);
-  char b[160]; snprintf(b, sizeof b, "reset x %d %d %d %d %llu", md, devs, (int)R->range(1, 8), (int)R->below(2), (unsigned long long)origin); exec(b);
+  char b[160]; snprintf(b, sizeof b, "reset x %d %d %d %d %llu %d", md, devs, (int)R->range(1, 8), (int)R->below(2), (unsigned long long)origin, R->chance(1, 2) ? 40 : (int)R->range(2, 12)); exec(b);
   int n = (int)R->range(20, 120);
   for (int i = 0; i < n; i++) {
     unsigned k = (unsigned)R->below(100);
+    if (R->chance(1, 40)) {   // driver back-pressure: the send queue fills with answers and wraps
+      exec("acc 0");
+      int m = (int)R->range(10, 130);
+      for (int j = 0; j < m; j++) { unsigned long q = R->chance(1, 2) ? 60928UL : (R->chance(1, 2) ? 126996UL : 126464UL); frame(mkId(6, 59904UL, peer(), R->chance(1, 3) ? 255 : N->src((int)R->below(nDev))), 3, le(q, 3)); if (R->chance(1, 10)) exec("t " + std::to_string(R->range(100, 500))); }
+      exec("acc 1"); exec("poll"); exec("poll");
+      continue;
+    }
     if (k < 18) tpSession(R->chance(3, 4));
     else if (k < 26) tpControl();
     else if (k < 42) groupFunction();
-    else if (k < 60) deviceInfoTraffic();
+    else if (k < 52) deviceInfoTraffic();
+    else if (k < 60) deviceListScenario();
     else if (k < 74) isoStuff();
     else if (k < 82) garbage();
     else if (k < 88) { char s[96]; snprintf(s, sizeof s, "send %d %d %lu %u %d", (int)R->below(devs), (int)R->below(2), R->chance(1, 2) ? 126996UL : 130900UL, R->chance(1, 2) ? peer() : 255u, (int)R->range(0, 223)); exec(s); }
